@@ -344,7 +344,7 @@ class Unit:
                 elif kw == 'loop':
                     toks = rest.split()
                     flags, kv = _kv(toks[1:])
-                    ent = dict(n=int(toks[0]), iter=kv.get('iter'), lines=[])
+                    ent = dict(n=int(toks[0]), iter=kv.get('iter'), hoist=kv.get('hoist'), lines=[])
                     spec['loops'][ent['n']] = ent
                     cur = ent['lines']
                 elif kw == 'closure':
@@ -530,6 +530,25 @@ class Unit:
 
     def _splice_body(self, path, body, spec, log):
         """returns list of (line, tag) for the body with ghost text inserted."""
+        # hoist: `for PAT in EXPR {` -> `let NAME = EXPR; for PAT in NAME {` (names the iterator so that ghost
+        # text before the loop can mention it; evaluation order unchanged)
+        for n_, ent in sorted(spec['loops'].items()):
+            if not ent.get('hoist'):
+                continue
+            sn0 = Snippet(body)
+            loops0 = sn0.loops(0, len(body))
+            if n_ < 1 or n_ > len(loops0) or loops0[n_ - 1][1] != 'for':
+                continue
+            p0, kind0, ob0 = loops0[n_ - 1]
+            mm0 = re.match(r'for\s+(.*?)\s+in\s+', body[p0:ob0], re.S)
+            if not mm0:
+                continue
+            expr = body[p0 + mm0.end():ob0].strip()
+            ls = sn0.line_start(p0)
+            indent = body[ls:p0]
+            newhead = 'let %s = %s;\n%sfor %s in %s ' % (ent['hoist'], expr, indent, mm0.group(1), ent['hoist'])
+            log.append(dict(rule='R8', before=norm_ws(body[p0:ob0]), after=norm_ws(newhead)))
+            body = body[:p0] + newhead + body[ob0:]
         for anchor, prefix, mut in spec['chains']:
             body, err = R.r8_let_chain(body, anchor, prefix, log, mut)
             if err:
